@@ -271,7 +271,7 @@ func TestProp_HostileInputs(t *testing.T) {
 			e = newEnv(t)
 		}
 		e.used++
-		kind := rapid.SampledFrom([]string{"alpn-list", "alpn-list", "alpn-list", "mutated-request", "hostile-rewrapped-blob", "hostile-wrapped-blob", "raw-bytes", "oversized-request", "client-alert", "tcp-reset", "hostile-field-values", "hostile-field-values", "reset-after-flight", "reset-after-flight"}).Draw(t, "inputKind")
+		kind := rapid.SampledFrom([]string{"alpn-list", "alpn-list", "alpn-list", "mutated-request", "hostile-rewrapped-blob", "hostile-wrapped-blob", "raw-bytes", "oversized-request", "client-alert", "tcp-reset", "hostile-field-values", "hostile-field-values", "reset-after-flight", "reset-after-flight", "hand-built-hello", "hand-built-hello"}).Draw(t, "inputKind")
 		switch kind {
 		case "reset-after-flight":
 			// a peer that sends k complete TLS flights and resets the TCP connection
@@ -465,6 +465,50 @@ func TestProp_HostileInputs(t *testing.T) {
 			rec.Case("hostile-field-values/"+map[bool]string{true: "authentication", false: "fetch"}[auth], fmt.Sprint(auth, vars), len(vars) > 0, desc)
 			e.sendALPN(list)
 			e.judge(t, "hostile-field-values", desc, false)
+		case "hand-built-hello":
+			// a ClientHello no TLS library would send, field by field: protocol versions
+			// of any age in the hello and on the record, the supported-versions extension
+			// absent / empty / old / odd, the other TLS 1.3 extensions there or not - with
+			// an ALPN list from the hostile grammar (or a foreign one)
+			ver := func(label string) uint16 {
+				return rapid.SampledFrom([]uint16{0x0303, 0x0303, 0x0304, 0x0302, 0x0301, 0x0300, 0x0200, 0x0002, 0x0000, 0xffff, 0x7f1c}).Draw(t, label)
+			}
+			legacy, recVer := ver("legacyVersion"), ver("recordVersion")
+			var sv []uint16
+			svKind := rapid.SampledFrom([]string{"absent", "absent", "tls13", "tls13", "tls12-only", "empty", "ancient", "mixed"}).Draw(t, "supportedVersions")
+			switch svKind {
+			case "tls13":
+				sv = []uint16{0x0304}
+			case "tls12-only":
+				sv = []uint16{0x0303}
+			case "empty":
+				sv = []uint16{}
+			case "ancient":
+				sv = []uint16{0x0300, 0x0200}
+			case "mixed":
+				sv = []uint16{0x0a0a, 0x0304, 0x0303, 0x0300}
+			}
+			n := rapid.IntRange(0, 5).Draw(t, "entries")
+			var list []string
+			for i := 0; i < n; i++ {
+				if en := genEntry(t, e); len(en) > 0 && len(en) < 256 {
+					list = append(list, en)
+				}
+			}
+			tls13Exts := rapid.Bool().Draw(t, "keyShareGroupsAndSignatureAlgorithms")
+			suites := rapid.SampledFrom([][]uint16{{0x1301, 0x1302, 0x1303}, {0xc02b, 0xc02f, 0x009c}, {0x1301, 0xc02b}, {}}).Draw(t, "cipherSuites")
+			hello := buildClientHello(legacy, recVer, sv, svKind != "absent", list, tls13Exts, suites)
+			desc := func() any {
+				return map[string]any{"legacy_version": fmt.Sprintf("%#04x", legacy), "record_version": fmt.Sprintf("%#04x", recVer), "supported_versions": svKind, "alpn": clipList(list), "tls13_extensions": tls13Exts, "cipher_suites": fmt.Sprintf("%#04x", suites)}
+			}
+			if c, err := net.DialTimeout("tcp", e.rig.Addr, 5*time.Second); err == nil {
+				_, _ = c.Write(hello)
+				_ = c.SetReadDeadline(time.Now().Add(300 * time.Millisecond))
+				_, _ = c.Read(make([]byte, 4096))
+				_ = c.Close()
+			}
+			rec.Case("hand-built-hello/"+map[bool]string{true: "library-prefixed", false: "foreign-only"}[hasLib(list)]+"/supported-versions="+svKind, fmt.Sprint(legacy, recVer, svKind, tls13Exts, suites, list), hasLib(list), desc)
+			e.judge(t, "hand-built-hello", desc, false)
 		case "alpn-list":
 			n := rapid.IntRange(1, 8).Draw(t, "entries")
 			var list []string
@@ -758,4 +802,56 @@ func TestRegress_ListenerLifecycle(t *testing.T) {
 		}
 		e.close()
 	}
+}
+
+// buildClientHello assembles the TLS records of a ClientHello from its fields.
+func buildClientHello(legacy, recVer uint16, supportedVersions []uint16, withSV bool, alpn []string, tls13Exts bool, suites []uint16) []byte {
+	u16 := func(v int) []byte { return []byte{byte(v >> 8), byte(v)} }
+	ext := func(typ int, data []byte) []byte { return append(append(u16(typ), u16(len(data))...), data...) }
+	var exts []byte
+	if len(alpn) > 0 {
+		var l []byte
+		for _, p := range alpn {
+			l = append(append(l, byte(len(p))), p...)
+		}
+		exts = append(exts, ext(16, append(u16(len(l)), l...))...)
+	}
+	if withSV {
+		var l []byte
+		for _, v := range supportedVersions {
+			l = append(l, u16(int(v))...)
+		}
+		exts = append(exts, ext(43, append([]byte{byte(len(l))}, l...))...)
+	}
+	if tls13Exts {
+		exts = append(exts, ext(10, []byte{0, 2, 0, 0x1d})...)
+		exts = append(exts, ext(13, []byte{0, 6, 0x08, 0x07, 0x04, 0x03, 0x08, 0x04})...)
+		ks := append([]byte{0, 0x1d, 0, 32}, rnd(32)...)
+		exts = append(exts, ext(51, append(u16(len(ks)), ks...))...)
+	}
+	body := u16(int(legacy))
+	body = append(body, rnd(32)...)
+	body = append(body, 32)
+	body = append(body, rnd(32)...)
+	body = append(body, u16(2*len(suites))...)
+	for _, cs := range suites {
+		body = append(body, u16(int(cs))...)
+	}
+	body = append(body, 1, 0)
+	body = append(body, u16(len(exts))...)
+	body = append(body, exts...)
+	msg := append([]byte{1, byte(len(body) >> 16), byte(len(body) >> 8), byte(len(body))}, body...)
+	var out []byte
+	for len(msg) > 0 {
+		n := len(msg)
+		if n > 16000 {
+			n = 16000
+		}
+		out = append(out, 0x16)
+		out = append(out, u16(int(recVer))...)
+		out = append(out, u16(n)...)
+		out = append(out, msg[:n]...)
+		msg = msg[n:]
+	}
+	return out
 }
